@@ -249,3 +249,78 @@ def writer_functions(ctx, words, exclude=()):
             seen[g.qual] = g
             todo.append(g)
     return list(seen.values())
+
+
+def loop_scratch_hazards(func):
+    """[(loop, name, store node, read node)]: an array / list bound before a loop (and not re-bound inside it) whose
+    elements are stored inside the loop at positions that depend on the iteration, and which is read as a whole
+    inside the same loop: what the previous iterations stored is still in it (a scratch object that is never reset)"""
+    out = []
+    node = func.node
+    loops = [l for l in ast.walk(node) if isinstance(l, (ast.For, ast.While))]
+    for l in loops:
+        inner = [x for b in l.body for x in ast.walk(b)]
+        bound_in = {x.id for x in inner if isinstance(x, ast.Name) and isinstance(x.ctx, ast.Store)}
+        if isinstance(l, ast.For):
+            bound_in |= {x.id for x in ast.walk(l.target) if isinstance(x, ast.Name)}
+        stores = {}
+        for x in inner:
+            if isinstance(x, ast.Assign):
+                for t in x.targets:
+                    if isinstance(t, ast.Subscript) and isinstance(t.value, ast.Name) and t.value.id not in bound_in:
+                        idx_names = {y.id for y in ast.walk(t.slice) if isinstance(y, ast.Name)}
+                        if idx_names & bound_in:
+                            stores.setdefault(t.value.id, []).append(t)
+        if not stores:
+            continue
+        par = {}
+        for b in l.body:
+            for x in ast.walk(b):
+                for ch in ast.iter_child_nodes(x):
+                    par[id(ch)] = x
+        for nm, sts in stores.items():
+            # bound (as a whole) somewhere in the function outside this loop
+            outside = [x for x in ast.walk(node) if isinstance(x, ast.Name) and x.id == nm and isinstance(x.ctx, ast.Store)
+                       and not any(x is y for y in inner)]
+            if not outside:
+                continue
+            pa = {id(ch): x for x in ast.walk(node) for ch in ast.iter_child_nodes(x)}
+            vals = [pa[id(x)].value for x in outside if isinstance(pa.get(id(x)), ast.Assign)]
+            if any(isinstance(v, (ast.Dict, ast.Set, ast.DictComp, ast.SetComp)) or (isinstance(v, ast.Call)
+                    and isinstance(v.func, ast.Name) and v.func.id in ('dict', 'set', 'defaultdict', 'OrderedDict'))
+                   for v in vals):
+                continue                    # a keyed collection: each key is its own entry, nothing is left over
+            for x in inner:
+                if isinstance(x, ast.Name) and x.id == nm and isinstance(x.ctx, ast.Load):
+                    p = par.get(id(x))
+                    if isinstance(p, ast.Subscript) and p.value is x:
+                        continue            # an element / slice read or store
+                    if isinstance(p, ast.Attribute) and p.attr in ('shape', 'dtype', 'size', 'ndim'):
+                        continue
+                    if isinstance(p, ast.Call) and isinstance(p.func, ast.Name) and p.func.id == 'len':
+                        continue
+                    if isinstance(p, ast.Compare) and any(isinstance(o, (ast.In, ast.NotIn)) for o in p.ops):
+                        continue            # a membership test on a dictionary that is being filled
+                    out.append((l, nm, sts[0], x))
+                    break
+    return out
+
+
+def check_loop_scratch(ctx, ck, rule, modules=('mininec', 'taper')):
+    """every function of the geometry modules that stores into elements of an outer array inside a loop"""
+    n = 0
+    for f in ctx.model.all_funcs():
+        if f.qual.split('.')[0] not in modules:
+            continue
+        if not any(isinstance(x, (ast.For, ast.While)) for x in ast.walk(f.node)):
+            continue
+        hz = loop_scratch_hazards(f)
+        n += 1
+        if hz:
+            l, nm, st, rd = hz[0]
+            ck.ob(rule, f.qual, False, f.loc(rd),
+                  '`%s` is bound before the loop, its elements `%s` are stored per iteration and it is read as a whole '
+                  'inside the loop: entries stored by earlier iterations are still in it' % (nm, norm(st)))
+        else:
+            ck.ob(rule, f.qual, True, f.loc(), 'no array bound outside a loop is partly overwritten and read whole inside it')
+    return n
